@@ -2,6 +2,7 @@
 //! canonical result line per case (the Lean driver `h3drv` prints the model's and the
 //! specification's answer for the same lines).
 mod e_c02;
+mod e_c05;
 mod e_c13;
 mod e_c15;
 mod e_c16;
@@ -18,6 +19,7 @@ fn dispatch(w: &[&str]) -> String {
         Some("varint") | Some("sid") => e_c16::handle(w),
         Some("dgram") => e_c18::handle(w),
         Some("set") => e_c13::handle(w),
+        Some("cell") => e_c05::handle(w),
         Some("pint") | Some("huff") | Some("pstr") => e_c15::handle(w),
         Some("frame") | Some("fs") => e_c02::handle(w),
         // connection-level engines share one scenario interpreter; the engine name selects the
